@@ -115,7 +115,13 @@ class C19(Check):
                "convert_chunks": rng.random() < 0.3,
                "stats": rng.random() < 0.4,
                "seed": rng.randrange(1 << 30),
-               "blksize": rng.choice([512, 4096, 65536])}
+               "blksize": rng.choice([512, 4096, 65536]),
+               # thorough: one data-writing command of the step-by-step
+               # program is killed before its exit handlers run; the later
+               # commands then work on whatever it left
+               "kill_step": (rng.choice(["convert", "compute_scales"])
+                             if tier == "thorough" and cls == "steps"
+                             and rng.random() < 0.2 else None)}
         return {"scenario": scn}
 
     # ------------------------------------------------------------------
@@ -242,10 +248,11 @@ class C19(Check):
         compared = 0
         n_scales = 0
 
-        def run(argv):
+        def run(argv, kill=False):
             real = [vol if a == "VOL" else a for a in argv]
-            log.add("RUN", argv)
-            pr = simproc.run_process(mains[argv[0]], real, fs=fs)
+            log.add("RUN", argv, kill)
+            pr = simproc.run_process(mains[argv[0]], real, fs=fs,
+                                     run_exit_handlers=not kill)
             log.add("EXIT", pr.status, pr.exc, pr.handler_errors)
             return pr
 
@@ -293,6 +300,13 @@ class C19(Check):
             s_failed = None
             prev = None
             for name, argv in steps:
+                if name == scn.get("kill_step"):
+                    # killed: no status, no promise; just go on
+                    run(argv, kill=True)
+                    res.probe("step_killed_before_exit_handlers")
+                    flags.add("killed:" + name)
+                    prev = None      # no valid "before" state any more
+                    continue
                 pr = run(argv)
                 ok = pr.status == 0 or (
                     name == "generate_info" and pr.status == 4)
@@ -335,7 +349,7 @@ class C19(Check):
                                     "volume-to-precomputed"):
                         break
                     compared += 1
-                    if name != "convert":
+                    if name != "convert" and prev is not None:
                         res.probe("repeat_convert")
                         flags.add("rep_conv")
                         # repeating the conversion re-writes scale 0 only;
@@ -352,12 +366,13 @@ class C19(Check):
                     prev = data
                 elif name.startswith("compute_scales"):
                     info, data = dataset(S)
+                    # compute-scales produces every scale but the first
                     if not complete(S, info, data,
-                                    {s["key"] for s in info["scales"]},
+                                    {s["key"] for s in info["scales"][1:]},
                                     "compute-scales"):
                         break
                     compared += 1
-                    if name != "compute_scales":
+                    if name != "compute_scales" and prev is not None:
                         res.probe("repeat_compute_scales")
                         flags.add("rep_scales")
                         diff = same(prev, data)
@@ -471,6 +486,7 @@ class C19(Check):
                           ("mmap", False), ("ignore_scaling", False),
                           ("scaling", False), ("flat", False), ("gzip", False),
                           ("input_max", None), ("input_min", None),
+                          ("kill_step", None),
                           ("outside", None), ("nchan", 0), ("type", None),
                           ("encoding", None), ("method", "auto"),
                           ("max_scales", None), ("blksize", 4096),
